@@ -5,7 +5,7 @@ import ast
 import re
 
 from ..core import Ctx
-from ..match import Fact, _atoms_with_polarity, arg, call_name, calls, fact_of, facts_at, local_defs, rchain, resolve, single_def, stores
+from ..match import Fact, _atoms_with_polarity, arg, call_name, calls, expr_context_facts, fact_of, facts_at, local_defs, rchain, resolve, single_def, stores
 from ..model import AnalysisError, ClassInfo, FuncInfo, chain, const_value, enclosing_stmt, norm, parent, strip_cast, walk_no_nested
 
 LEVEL = "other"
@@ -28,7 +28,16 @@ EXPLANATION = (
     "kept in the sqlite3 module's implicit-transaction mode (no isolation_level=None / autocommit=True anywhere in the database layer), so that "
     "Connection.commit() is what ends a transaction.  Where a decision (commit now or defer, row written or not) is carried by a flag, an Enum "
     "tag, a result record or a callee instead of a dominating test, the same questions are decided by walking every path with the values that "
-    "decide its branches. SQLite's atomic commit and behaviour at each kill point are trusted, not explored."
+    "decide its branches.  Every normal path through an insert_* executes its INSERT (a path that skips statement and commit because something "
+    "kept in memory says the row was written before is reported); the wrappers that the decorators of Database.execute / executemany / "
+    "executescript / commit put around them run the wrapped method on every normal path unless the database is closed (a lock taken without "
+    "blocking, a time-out or a rate limit would drop a commit silently); check_database runs the schema script on every open, or - where it may "
+    "skip it - the database_version record is the last thing the script writes (executescript commits statement by statement); on the open path "
+    "(Database.open and the _connect / _initial_statements / _prepare_version / check_database / get_schema it reaches, on both subclasses) a "
+    "next() over the rows of a query without default is under a handler for StopIteration, and a fetchone() row is tested for None before it is "
+    "taken apart, unless the statement folds to one that always yields a row (aggregate SELECT without grouping, PRAGMA read): a kill between "
+    "the DELETE and the INSERT of the version record must not make every later open fail. "
+    "SQLite's atomic commit and behaviour at each kill point are trusted, not explored."
 )
 
 DB = "ipv8/database.py"
@@ -1177,6 +1186,8 @@ def rule_commit_after_insert(ctx: Ctx) -> None:
                 if u is not None:
                     raise AnalysisError(f"undecided: {fr.fi.qualname} takes `{norm(u)[:80]}` as a value; cannot tell which statement {fi.qualname} executes through it")
         ctx.check(bool(writes), "commit-after-insert", fi, fi.node, f"{fi.qualname} issues its INSERT through self.execute", f"{fi.qualname} has no recognisable write statement")
+        if writes:
+            _writes_on_every_path(ctx, top, fi)
         walked: list = []
 
         def committed(s_: _Site) -> bool:
@@ -1210,6 +1221,56 @@ def rule_commit_after_insert(ctx: Ctx) -> None:
             plain = not g.node.decorator_list or (g is not fi and all(chain(d) == "db_call" for d in g.node.decorator_list))
             ctx.check(not g.is_async and plain, "commit-after-insert", g, g.node, f"{g.qualname} is a plain synchronous method",
                       f"{g.qualname} is wrapped/async: the commit may not have happened when the call returns")
+
+
+    for name in _EXEC:
+        _wrapper_runs_body(ctx, ctx.repo.method("Database", name, DB), "commit-after-insert")
+
+
+def _is_write_call(fr: _Frame, c: ast.Call) -> bool:
+    how = _exec_call(fr, c)
+    return how is not None and bool(_WRITE_SQL.match(_Site(fr, c, how).sql))
+
+
+def _walk_always_writes(ctx: Ctx, fi: FuncInfo) -> bool | None:
+    """decided path by path: every normal path through fi executes a write statement (None: the walk gives no answer)"""
+    def event(fr: _Frame, c: ast.Call, st: _WState):
+        how = _exec_call(fr, c)
+        if how is not None:
+            site = _Site(fr, c, how)
+            if _WRITE_SQL.match(site.sql):
+                return [st.flag("wrote")]
+            if site.text is None:
+                raise _Bail("unreadable statement")
+            return [st]
+        return None
+    try:
+        normal, _ = _PathWalk(ctx, event).function(fi, _UNK)
+    except (_Bail, AnalysisError, RecursionError, AttributeError, TypeError, KeyError, IndexError, ValueError):
+        return None
+    return bool(normal) and all("wrote" in s_.flags for s_ in normal)
+
+
+def _writes_on_every_path(ctx: Ctx, top: _Frame, fi: FuncInfo) -> None:
+    """An insert that returns normally has executed its INSERT (and, by the clause above, committed it).  A normal path that skips the
+    statement - because a cache, a flag or a set kept in memory says the row `was written before` - returns without execute and without
+    commit: memory knows what was executed, not what was committed (a deferred, ignored or failed commit leaves the row in an open
+    transaction), so a record whose insert call returned can be lost by a kill."""
+    wn = _nodes_doing(ctx, top, lambda fr: [c for c in calls(fr.fi) if _is_write_call(fr, c)])
+    ok: bool | None = bool(wn) and ctx.cfg(fi).exit not in _feasible(ctx, top, cut_nodes=wn)
+    if not ok:
+        ok = _walk_always_writes(ctx, fi)
+    if ok is None:
+        raise AnalysisError(f"undecided: cannot tell whether every normal path through {fi.qualname} executes its INSERT")
+    skip = None
+    if not ok:
+        cfg = ctx.cfg(fi)
+        live = _feasible(ctx, top, cut_nodes=wn)
+        skip = next((r for r in walk_no_nested(fi.node) if isinstance(r, ast.Return) and any(n in live for n in cfg.nodes_for(r))), None)
+    ctx.check(ok, "commit-after-insert", fi, skip if skip is not None else fi.node, f"{fi.qualname}: every normal path executes the INSERT",
+              f"{fi.qualname} can return normally without executing its INSERT (and without commit): whether the record is durable is then decided by "
+              "something the process remembers, not by the database - a row whose earlier commit was deferred, ignored or failed is still in an open "
+              "transaction, the repeated insert call returns, and a kill loses a record whose insert call had returned")
 
 
 PENDING = "self._pending_commits"
@@ -2532,6 +2593,7 @@ def rule_no_deferred(ctx: Ctx) -> None:
                   "Database.commit() catches the exception of a failing connection.commit() and returns normally: no caller looks at the return value, so "
                   "insert_token/insert_metadata/insert_attestation return although nothing was made durable, and a kill afterwards loses a record whose insert call had returned")
     _returns_true_only_after(ctx, cm, reported=len(ctx.findings) > n_before)
+    _wrapper_runs_body(ctx, cm, "no-deferred-commit")
     cl = repo.method("Database", "close", DB)
     cfgc = ctx.cfg(cl)
     topc = _top(ctx, cl)
@@ -3366,6 +3428,69 @@ def _schema_texts(ctx: Ctx, gs: FuncInfo) -> list[str]:
     return texts
 
 
+_VERSION_WRITE = re.compile(r"\b(INSERT|REPLACE)\b[^;]*?\bINTO\s+option\b|\bUPDATE\s+option\b", re.I)
+_CREATE_TABLE = re.compile(r"\bCREATE\s+TABLE\b", re.I)
+
+
+def _is_schema_script(fr: _Frame, c: ast.Call) -> bool:
+    """an executescript call whose statements come from get_schema / contain CREATE TABLE"""
+    how = _exec_call(fr, c)
+    if how is None or how[0] != "executescript":
+        return False
+    site = _Site(fr, c, how)
+    if site.text is not None and _CREATE_TABLE.search(site.text):
+        return True
+    a = site._stmt_arg()
+    if a is None:
+        return False
+    b, bfr = _deref(a[1], a[0])
+    return any(isinstance(x, ast.Call) and _runs_named(bfr, x, "get_schema") for x in ast.walk(b)) \
+        or any(isinstance(x, ast.Call) and _runs_named(a[1], x, "get_schema") for x in ast.walk(a[0]))
+
+
+def _script_every_open_or_version_last(ctx: Ctx, c: ClassInfo, cd: FuncInfo) -> None:
+    """
+    The schema script runs in autocommit mode (executescript): each of its statements is durable on its own, so a kill can leave any prefix
+    of it.  That is harmless as long as every open() runs the whole script again (CREATE TABLE IF NOT EXISTS repairs the prefix).  Once
+    check_database may skip the script - typically `the stored version is current` - the version record is what vouches for the tables, and
+    then it must be the LAST thing the script writes: a version record written before a CREATE TABLE can be durable while the table is not,
+    and the skip then keeps the table missing for ever (every insert / reload raises `no such table`).
+    """
+    top = _top(ctx, cd)
+    nodes = _nodes_doing(ctx, top, lambda fr: [k for k in calls(fr.fi) if _is_schema_script(fr, k)])
+    always = bool(nodes) and ctx.cfg(cd).exit not in _feasible(ctx, top, cut_nodes=nodes)
+    if always:
+        ctx.check(True, "schema-reopen", cd, cd.node, f"{c.name}.check_database runs the schema script on every open (a partially applied script is completed)")
+        return
+    gs = c.lookup("get_schema")
+    text = None
+    if gs is not None:
+        synth = ast.Call(func=ast.Attribute(value=ast.Name(id="self", ctx=ast.Load()), attr="get_schema", ctx=ast.Load()),
+                         args=[ast.Name(id="database_version", ctx=ast.Load())], keywords=[])
+        v = _ev(top, synth)
+        text = v if isinstance(v, str) else None
+        if text is None:
+            rets = [r.value for r in walk_no_nested(gs.node) if isinstance(r, ast.Return) and r.value is not None]
+            if len(rets) == 1:
+                text = _text(_Frame(ctx.repo, gs, cls=c, ctx=ctx), rets[0])
+    if text is None or not _CREATE_TABLE.search(text) or "{}" in text.split("CREATE", 1)[0]:
+        raise AnalysisError(f"undecided: {c.name}.check_database can return without running the schema script and the order of the statements "
+                            f"{c.name}.get_schema returns cannot be read")
+    vw = _VERSION_WRITE.search(text)
+    last_create = max(m.start() for m in _CREATE_TABLE.finditer(text))
+    ok = vw is None or vw.start() > last_create
+    skip = None
+    cfg = ctx.cfg(cd)
+    live = _feasible(ctx, top, cut_nodes=nodes)
+    skip = next((r for r in walk_no_nested(cd.node) if isinstance(r, ast.Return) and any(n in live for n in cfg.nodes_for(r))), None)
+    ctx.check(ok, "schema-reopen", cd, skip if skip is not None else cd.node,
+              f"{c.name}: check_database may skip the schema script, the version record is the last thing the script writes",
+              f"{c.name}.check_database can return without running the schema script while {c.name}.get_schema writes the database_version record "
+              "BEFORE a CREATE TABLE. executescript commits statement by statement: a kill during the first open leaves the version record durable and "
+              "the table missing, every later open skips the script because the version looks current, and the table stays missing for ever "
+              "(the database opens, but every insert and the pseudonym reload raise `no such table`)")
+
+
 def rule_schema(ctx: Ctx) -> None:
     _G["repo"] = ctx.repo
     repo = ctx.repo
@@ -3384,6 +3509,7 @@ def rule_schema(ctx: Ctx) -> None:
         ok = bool(scripts) and (all(_committed_before_return(ctx, x) for x in scripts)
                                 or _walk_clean_at_return(ctx, cd, lambda x: x.method == "executescript" or bool(_WRITE_SQL.match(x.sql))))
         ctx.check(ok, "schema-reopen", cd, cd.node, f"{c.name}.check_database commits the schema", f"{c.name}.check_database leaves the schema uncommitted")
+        _script_every_open_or_version_last(ctx, c, cd)
     # keyed tables: INSERT OR IGNORE
     for fi in insert_functions(ctx):
         if fi.cls is idb:
@@ -3637,6 +3763,344 @@ def rule_transaction_mode(ctx: Ctx) -> None:
     ctx.instance("transaction-mode", DB, "the database layer opens its connection in sqlite3's default (implicit transaction) mode")
 
 
+# ------------------------------------------------------------------------------------------------------------------
+# open-survives: nothing on the open path can fail for ever because a kill left a query without a row
+
+_ONE_ROW_SELECT = re.compile(r"\s*SELECT\s+(COUNT|MAX|MIN|SUM|TOTAL|AVG)\s*\(", re.I)
+_NOT_ONE_ROW = re.compile(r"\bGROUP\s+BY\b|\bHAVING\b|\bLIMIT\b|\bOFFSET\b|\bUNION\b|\bEXCEPT\b|\bINTERSECT\b", re.I)
+_ONE_ROW_PRAGMA = re.compile(r"\s*PRAGMA\s+(page_size|journal_mode|synchronous|user_version|page_count|locking_mode|encoding|cache_size)\s*;?\s*$", re.I)
+_OPEN_PATH = ("_connect", "_initial_statements", "_prepare_version", "check_database", "get_schema")
+_ROW_READERS = ("fetchall", "fetchmany", "fetchone")
+
+
+def _uncast(e: ast.AST) -> ast.AST:
+    """cast(T, x) / typing.cast(T, x) -> x"""
+    while isinstance(e, ast.Call) and call_name(e) == "cast" and len(e.args) == 2 and not e.keywords:
+        e = e.args[1]
+    return e
+
+
+def _always_one_row(sql: str | None) -> bool | None:
+    """the statement yields exactly one row whatever the database holds: an aggregate SELECT without grouping, or a PRAGMA that reads a
+    setting (None: the text cannot be read)"""
+    if sql is None:
+        return None
+    if _ONE_ROW_PRAGMA.match(sql):
+        return True
+    return bool(_ONE_ROW_SELECT.match(sql)) and not _NOT_ONE_ROW.search(sql) and "{" not in sql.split("(", 1)[0]
+
+
+def _exec_sources(frame: _Frame, e: ast.AST, depth: int = 0) -> list[tuple[ast.Call, _Frame]]:
+    """the execute calls whose result rows the expression hands on: through casts, single-assignment locals, helper parameters and the
+    wrappers iter() / list() / generator expressions"""
+    if depth > 6:
+        return []
+    b, fr = _deref(frame, _uncast(e)) if frame.fi is not None else (_uncast(e), frame)
+    b = _uncast(b)
+    if isinstance(b, ast.Call) and isinstance(b.func, ast.Attribute) and b.func.attr in _EXEC:
+        return [(b, fr)]
+    out: list[tuple[ast.Call, _Frame]] = []
+    if isinstance(b, ast.Call) and isinstance(b.func, ast.Attribute) and b.func.attr in _ROW_READERS:
+        return _exec_sources(fr, b.func.value, depth + 1)
+    if isinstance(b, ast.Call) and isinstance(b.func, ast.Name) and b.func.id in ("iter", "list", "tuple", "reversed") and len(b.args) == 1:
+        return _exec_sources(fr, b.args[0], depth + 1)
+    if isinstance(b, (ast.GeneratorExp, ast.ListComp)):
+        for g in b.generators:
+            out += _exec_sources(fr, g.iter, depth + 1)
+    return out
+
+
+def _handler_types(frame: _Frame, t: ast.AST | None, depth: int = 0) -> set[str] | None:
+    """names of the exception classes an `except <t>` clause catches ({"*"}: everything; None: cannot be read)"""
+    if t is None:
+        return {"*"}
+    if depth > 4:
+        return None
+    if isinstance(t, (ast.Tuple, ast.List)):
+        out: set[str] = set()
+        for x in t.elts:
+            r = _handler_types(frame, x, depth + 1)
+            if r is None:
+                return None
+            out |= r
+        return out
+    if isinstance(t, ast.Attribute):
+        return {t.attr}
+    if isinstance(t, ast.Name):
+        if frame.fi is not None and local_defs(frame.fi, t.id):
+            d = single_def(frame.fi, t.id)
+            return _handler_types(frame, d[0], depth + 1) if d is not None and d[1] is None else None
+        r = frame.repo.resolve_name(frame.module, t.id) if frame.module is not None else None
+        if isinstance(r, tuple) and r[0] == "const":
+            return _handler_types(_Frame(frame.repo, module=r[1]), r[2], depth + 1)
+        return {t.id}
+    return None
+
+
+_CATCH_ALL = {"*", "Exception", "BaseException"}
+
+
+def _exc_taken(frame: _Frame, raised: str, names: set[str]) -> bool:
+    """an `except <names>` clause takes an exception of class `raised` (builtin hierarchy, classes of the repository by their bases)"""
+    import builtins
+    if names & _CATCH_ALL or raised in names:
+        return True
+    lineage = {raised}
+    k = frame.repo.try_cls(raised) if frame.repo is not None else None
+    if k is not None:
+        lineage |= {c.name for c in k.mro()} | set(k.all_base_names())
+    for n in list(lineage):
+        b = getattr(builtins, n, None)
+        if isinstance(b, type) and issubclass(b, BaseException):
+            lineage |= {x.__name__ for x in b.__mro__}
+    return bool(lineage & names)
+
+
+def _caught_here(frame: _Frame, node: ast.AST, exc: str) -> tuple[bool | None, str]:
+    """(verdict, exception that leaves the function if the verdict is not True): an exception `exc` raised by node (inside the frame's
+    function) is taken by a handler / contextlib.suppress of that function that goes on normally; a handler that takes it and raises another
+    exception (a private `no row` exception instead of an Optional result) hands that one outwards.  None: an exception list cannot be read"""
+    cur = node
+    unread = False
+    for p_ in _ancestors(node):
+        if p_ is frame.fi.node or isinstance(p_, (ast.FunctionDef, ast.AsyncFunctionDef, ast.Lambda)):
+            break
+        if isinstance(p_, ast.Try) and any(cur is x for x in p_.body):
+            for h in p_.handlers:
+                ts = _handler_types(frame, h.type)
+                if ts is None:
+                    unread = True
+                elif _exc_taken(frame, exc, ts):
+                    last = h.body[-1]
+                    if not isinstance(last, ast.Raise):
+                        return True, exc
+                    if last.exc is not None:
+                        e = last.exc.func if isinstance(last.exc, ast.Call) else last.exc
+                        name = (chain(e) or "").split(".")[-1]
+                        if not name or (isinstance(e, ast.Name) and h.name == e.id):
+                            name = exc if isinstance(e, ast.Name) and h.name == e.id else ""
+                        if not name:
+                            return None, exc
+                        exc = name
+                    break
+        if isinstance(p_, (ast.With, ast.AsyncWith)) and any(cur is x for x in p_.body):
+            for it in p_.items:
+                if _swallows(frame.module, it.context_expr):
+                    names: set[str] = set()
+                    for a in strip_cast(it.context_expr).args:
+                        r = _handler_types(frame, a.value if isinstance(a, ast.Starred) else a)
+                        if r is None:
+                            unread = True
+                        else:
+                            names |= r
+                    if names and _exc_taken(frame, exc, names):
+                        return True, exc
+        cur = p_
+    return (None if unread else False), exc
+
+
+def _caught(frame: _Frame, node: ast.AST, exc: str) -> bool | None:
+    """... in the function itself or around the call that leads to it at any level of the call chain"""
+    unread = False
+    for lf, ln in [(frame, node), *reversed(frame.chain_calls())]:
+        r, exc = _caught_here(lf, ln, exc)
+        if r:
+            return True
+        unread = unread or r is None
+    return None if unread else False
+
+
+def _open_frames(ctx: Ctx) -> list[_Frame]:
+    """Database.open run on an IdentityDatabase and on an AttestationsDB, with everything of the object it calls (the hooks check_database /
+    get_schema resolve to the subclass), plus the reviewed steps of the open path should open() no longer reach them by plain calls"""
+    repo = ctx.repo
+    op = repo.method("Database", "open", DB)
+    frames: list[_Frame] = []
+    for k in (repo.cls("IdentityDatabase", IDB), repo.cls("AttestationsDB", WDB)):
+        mine = _all_frames(_Frame(repo, op, cls=k, ctx=ctx))
+        for name in _OPEN_PATH:
+            m = k.lookup(name)
+            if m is not None and not any(fr.fi is m for fr in mine):
+                mine += _all_frames(_Frame(repo, m, cls=k, ctx=ctx))
+        frames += mine
+    return frames
+
+
+def rule_open_survives(ctx: Ctx) -> None:
+    """
+    "The database opens again without error": every open() re-runs the schema script, which DELETEs and re-INSERTs the database_version
+    record; executescript commits statement by statement, so a kill between the two leaves a database without that row - a state every later
+    open must get through.  On the open path a `next(<rows of a query>)` without default raises StopIteration (and the single-row unpacking
+    of fetchone() raises TypeError) exactly on such a database, and nothing would ever repair it: the read must be under a handler for that
+    exception (or give a default / test for None), unless the query yields a row whatever the database holds (aggregate SELECT, PRAGMA read).
+    """
+    _G["repo"] = ctx.repo
+    frames = _open_frames(ctx)
+    ctx.floor("open-survives", len({fr.fi for fr in frames}), 5)
+    seen: set[int] = set()
+    for fr in frames:
+        fi = fr.fi
+        if id(fi.node) not in seen:
+            ctx.instance("open-survives", fi.where, f"{fi.qualname} is on the open path: its single-row reads were examined", nontrivial=False)
+        seen.add(id(fi.node))
+        for c in calls(fi):
+            if id(c) in seen or not _live(fr, c):
+                continue
+            if isinstance(c.func, ast.Name) and c.func.id == "next" and len(c.args) == 1 and not c.keywords and not isinstance(c.args[0], ast.Starred) \
+                    and not local_defs(fi, "next"):
+                srcs = _exec_sources(fr, c.args[0])
+                if not srcs:
+                    continue                              # not the rows of a query
+                seen.add(id(c))
+                _check_row_read(ctx, fr, c, srcs, "StopIteration", f"next() over the rows of a query in {fi.qualname}")
+            elif isinstance(c.func, ast.Attribute) and c.func.attr == "fetchone" and not c.args:
+                uses = _unguarded_row_uses(ctx, fr, c)
+                if not uses:
+                    continue
+                seen.add(id(c))
+                srcs = _exec_sources(fr, c.func.value)
+                _check_row_read(ctx, fr, uses[0], srcs, "TypeError", f"fetchone() row taken apart without a test for None in {fi.qualname}")
+
+
+def _check_row_read(ctx: Ctx, fr: _Frame, node: ast.AST, srcs: list, exc: str, what: str) -> None:
+    fi = fr.fi
+    texts = [t for ec, efr in srcs for t in (_stmt_texts(efr, ec) or [None])]
+    one = [_always_one_row(t) for t in texts]
+    if srcs and all(x is True for x in one):
+        ctx.check(True, "open-survives", fi, node, f"{what}: the query always yields a row")
+        return
+    caught = _caught(fr, node, exc)
+    if caught:
+        ctx.check(True, "open-survives", fi, node, f"{what}: {exc} is handled")
+        return
+    if caught is None or not srcs or any(x is None for x in one):
+        raise AnalysisError(f"undecided: cannot tell whether `{norm(node)[:100]}` in {fi.qualname} can meet a query without rows "
+                            "(statement text or exception list not readable)")
+    shown = next((t for t, x in zip(texts, one) if x is False), "") or ""
+    ctx.check(False, "open-survives", fi, node, f"{what}: guarded",
+              f"{fi.qualname} reads a single row with `{norm(node)[:90]}` from `{' '.join(shown.split())[:110]}` and no handler takes the {exc} an empty "
+              "result raises. Every open() re-runs the schema script (DELETE + INSERT of the database_version record, committed statement by statement by "
+              "executescript): a kill between the two statements leaves the table without that row, and then this read fails on every later open - "
+              "the database never opens again although nothing stored was lost")
+
+
+def _unguarded_row_uses(ctx: Ctx, fr: _Frame, c: ast.Call) -> list[ast.AST]:
+    """places where the row fetchone() returned is indexed / unpacked without a dominating test that it is not None"""
+    fi = fr.fi
+    p_ = parent(c)
+    while isinstance(p_, ast.Call) and _uncast(p_) is not p_ and any(x is c or _uncast(x) is c for x in p_.args):
+        c, p_ = p_, parent(p_)
+    if isinstance(p_, ast.Subscript) and p_.value is c:
+        return [p_]
+    if isinstance(p_, ast.Assign) and p_.value is c:
+        if any(isinstance(t, (ast.Tuple, ast.List)) for t in p_.targets):
+            return [p_]
+        names = [t.id for t in p_.targets if isinstance(t, ast.Name)]
+        out: list[ast.AST] = []
+        cfg = ctx.cfg(fi)
+        for n in walk_no_nested(fi.node):
+            use = None
+            if isinstance(n, ast.Subscript) and isinstance(n.value, ast.Name) and n.value.id in names and isinstance(n.ctx, ast.Load):
+                use, nm = n, n.value.id
+            elif isinstance(n, ast.Assign) and isinstance(n.value, ast.Name) and n.value.id in names and any(isinstance(t, (ast.Tuple, ast.List)) for t in n.targets):
+                use, nm = n, n.value.id
+            if use is None or len(local_defs(fi, nm)) != 1:
+                continue
+            def known(f: Fact) -> bool:
+                if not (isinstance(f.left, ast.Name) and f.left.id == nm):
+                    return False
+                return (f.op == "truthy" and f.pos) or (f.op == "is" and not f.pos and const_value(f.right) is None and isinstance(f.right, ast.Constant))
+            if not any(known(f) for f in facts_at(cfg, use.value if isinstance(use, ast.Subscript) else use)):
+                out.append(use)
+        return out
+    return []
+
+
+# ------------------------------------------------------------------------------------------------------------------
+# the lock wrapper of execute*/commit runs the wrapped method
+
+_INERT_DECORATORS = {"abstractmethod", "staticmethod", "classmethod", "override", "final", "wraps"}
+
+
+def _cursor_fact(f: Fact, selfname: str, w: FuncInfo | None = None) -> bool | None:
+    """True: the fact says the database is open (self._cursor / self._connection set); False: it says it is closed; None: something else"""
+    left = strip_cast(f.left)
+    name = (rchain(w, left) if w is not None else None) or chain(left)
+    if name not in (selfname + "._cursor", selfname + "._connection"):
+        return None
+    if f.op == "truthy":
+        return f.pos
+    if f.op == "is" and isinstance(f.right, ast.Constant) and f.right.value is None:
+        return not f.pos
+    return None
+
+
+def _wrapper_runs_body(ctx: Ctx, meth: FuncInfo, rule: str) -> None:
+    """
+    Database.execute / executemany / executescript / commit are reached through their decorators: what the insert functions call is the
+    wrapper.  Every normal path through a wrapper must run the wrapped method unless the database is closed (no cursor): a wrapper that can
+    return without running it - a lock taken with acquire(blocking=False), a time-out, a rate limit - makes `self.commit()` in an insert a
+    request that may be dropped silently (no caller looks at the return value), so the insert returns while its row sits in an open
+    transaction and a kill loses it.
+    """
+    repo = ctx.repo
+    for d in meth.node.decorator_list:
+        head = d.func if isinstance(d, ast.Call) else d
+        last = (chain(head) or "").split(".")[-1]
+        if last in _INERT_DECORATORS:
+            continue
+        target = repo.resolve_name(meth.module, head.id) if isinstance(head, ast.Name) else None
+        if not isinstance(target, FuncInfo):
+            raise AnalysisError(f"undecided: cannot read the decorator `{norm(d)[:60]}` of {meth.qualname}: does its wrapper always run the method?")
+        owner = target.node
+        if isinstance(d, ast.Call):                        # a decorator factory: the decorator is the nested function it returns
+            inner = [n for n in walk_no_nested(owner) if isinstance(n, (ast.FunctionDef, ast.AsyncFunctionDef)) and n is not owner
+                     and any(isinstance(r, ast.Return) and isinstance(r.value, ast.Name) and r.value.id == n.name for r in walk_no_nested(owner))]
+            if len(inner) != 1:
+                raise AnalysisError(f"undecided: cannot find the decorator that `{norm(d)[:60]}` returns for {meth.qualname}")
+            owner = inner[0]
+        oi = repo.info(owner)
+        if not oi.params():
+            raise AnalysisError(f"undecided: decorator {oi.qualname} takes no function")
+        fparam = oi.params()[0]
+        aliases = {fparam} | {t.id for n in walk_no_nested(owner) if isinstance(n, ast.Assign) and isinstance(n.value, ast.Name) and n.value.id == fparam
+                              for t in n.targets if isinstance(t, ast.Name)}
+
+        def runs(c: ast.Call, w) -> bool:
+            f = c.func
+            if isinstance(f, ast.Name) and not local_defs(w, f.id) and f.id not in w.params():
+                return f.id in aliases
+            if isinstance(f, ast.Name):
+                r = resolve(w, f)
+                return isinstance(r, ast.Name) and r.id in aliases and r.id not in w.params() and not local_defs(w, r.id)
+            return False
+        wrappers = [n for n in walk_no_nested(owner) if isinstance(n, (ast.FunctionDef, ast.AsyncFunctionDef)) and n is not owner
+                    and any(runs(c, repo.info(n)) for c in calls(repo.info(n)))]
+        returned = [r.value for r in walk_no_nested(owner) if isinstance(r, ast.Return) and r.value is not None]
+        if not wrappers:
+            if returned and all(isinstance(v, ast.Name) and v.id in aliases for v in returned):
+                ctx.check(True, rule, meth, d, f"{meth.qualname}: decorator {target.name} hands the method back unwrapped")
+                continue
+            raise AnalysisError(f"undecided: cannot find the wrapper that decorator {target.qualname} puts around {meth.qualname}")
+        for wn in wrappers:
+            w = repo.info(wn)
+            cfg = ctx.cfg(w)
+            selfname = w.params()[0] if w.params() else "self"
+            sure = []
+            for c in calls(w):
+                if runs(c, w) and all(_cursor_fact(f, selfname, w) is True for f in expr_context_facts(c)):
+                    sure += cfg.nodes_for(c)
+
+            def closed(u, v, lab) -> bool:
+                return u.kind == "cond" and lab in (True, False) and u.ast is not None and _cursor_fact(fact_of(u.ast, lab), selfname, w) is False
+            ok = bool(sure) and not w.is_async and cfg.exit not in cfg.reach(cut_nodes=sure, cut_edge=closed, follow_exc=False)
+            ctx.check(ok, rule, w, wn, f"{meth.qualname}: every normal path through {w.qualname} runs the method (unless the database is closed)",
+                      f"{w.qualname}, the wrapper that decorator {target.name} puts around {meth.qualname}, can return normally without running "
+                      f"{meth.name}() although the database is open. No caller looks at what {meth.name}() returns: an insert whose "
+                      f"{'commit' if meth.name == 'commit' else 'statement'} was skipped this way returns normally while its row is not durable, and a kill afterwards loses a "
+                      "record whose insert call had returned")
+
+
 def run(ctx: Ctx) -> None:
     rule_commit_after_insert(ctx)
     rule_no_deferred(ctx)
@@ -3644,6 +4108,7 @@ def run(ctx: Ctx) -> None:
     rule_schema(ctx)
     rule_files_kept(ctx)
     rule_transaction_mode(ctx)
+    rule_open_survives(ctx)
     ctx.assume("SQLite's atomic commit in WAL mode with synchronous=NORMAL: a committed transaction survives a process kill; partial transactions are rolled back on reopen (trusted)")
     ctx.assume("power loss (as opposed to process kill) may lose the last WAL commits with synchronous=NORMAL; the property speaks of process kills")
 
@@ -3718,4 +4183,21 @@ WITNESSES = [
     {"name": "insert commits only when a flag says a row changed", "file": IDB, "rule": "commit-after-insert",
      "old": "(public_key.key_to_bin(), token_pointer, signature, serialized_json_dict))\n        self.commit()",
      "new": "(public_key.key_to_bin(), token_pointer, signature, serialized_json_dict))\n        changed = token_pointer is not None\n        if changed:\n            self.commit()"},
+    {"name": "missing version record makes every later open raise StopIteration (the defect repaired in /repo)", "file": DB, "rule": "open-survives",
+     "old": "            except (OperationalError, StopIteration):", "new": "            except OperationalError:"},
+    {"name": "version read handler takes StopIteration only to raise", "file": DB, "rule": "open-survives",
+     "old": "                # the \"database_version\" key was not found\n                version = b\"0\"",
+     "new": "                raise RuntimeError(\"no version\")"},
+    {"name": "lock wrapper gives up instead of waiting", "file": DB, "rule": "no-deferred-commit",
+     "old": "        with db_locks[self._file_path]:\n            if self._cursor:\n                return f(self, *args, **kwargs)\n            return None",
+     "new": "        if not db_locks[self._file_path].acquire(blocking=False):\n            return False\n        try:\n"
+            "            return f(self, *args, **kwargs) if self._cursor else None\n        finally:\n            db_locks[self._file_path].release()"},
+    {"name": "insert skipped because memory says the row was written", "file": IDB, "rule": "commit-after-insert",
+     "old": "        token_pointer, signature, serialized_json_dict = metadata.to_database_tuple()\n",
+     "new": "        token_pointer, signature, serialized_json_dict = metadata.to_database_tuple()\n        if token_pointer in self.__dict__.setdefault(\"_seen\", set()):\n            return\n"},
+    {"name": "schema script skipped for a current version while a table is created after the version record", "rule": "schema-reopen", "edits": [
+        {"file": IDB, "old": "                 INSERT INTO option(key, value) VALUES('database_version', '%s');\n",
+         "new": "                 INSERT INTO option(key, value) VALUES('database_version', '%s');\n                 CREATE TABLE IF NOT EXISTS Extra(k BLOB);\n"},
+        {"file": IDB, "old": "        database_version_num = int(database_version) or self.LATEST_DB_VERSION\n",
+         "new": "        if int(database_version) == self.LATEST_DB_VERSION:\n            return self.LATEST_DB_VERSION\n        database_version_num = int(database_version) or self.LATEST_DB_VERSION\n"}]},
 ]
